@@ -1685,8 +1685,11 @@ func (k *Kernel) handleStateMachineRoundEntrance(ctx context.Context, s *kState,
 	// And now we need to respond with the matching view.
 	vrv, _, status := s.FindView(re.H, re.R, "(*Kernel).handleStateMachineRoundEntrance")
 	if vrv == nil {
-		// There is one acceptable condition here -- it was before the committing round.
-		if status == ViewBeforeCommitting {
+		// There are two acceptable conditions here -- it was before the committing round,
+		// or it is a later round of the committing height
+		// (the state machine kept voting at a height the network has already decided).
+		// Either way the state machine needs the header that was committed at that height.
+		if status == ViewBeforeCommitting || status == ViewWrongCommit {
 			// Then we have to load it from the header store.
 			ch, err := k.hStore.LoadCommittedHeader(ctx, re.H)
 			if err != nil {
